@@ -7,7 +7,7 @@
 From Coq Require Import ZArith List Bool.
 From ScV Require Import Base.CInt Gen.Codec C06.Res C06.B64Model C06.B64Spec C06.B64Proofs
   C06.ArmorModel C06.ArmorProofs C06.StoredModel C06.StoredProofs C06.AdlerProofs
-  C07.PuffModel C07.DecodeModel C06.StoredRoundtrip.
+  C07.PuffModel C07.DecodeModel C06.StoredRoundtrip C06.RoundTrip.
 Import ListNotations.
 Local Open Scope Z_scope.
 
@@ -132,6 +132,62 @@ Theorem C06_stored_roundtrip : forall d cap dnil, bytes d -> len d < M64 / 2 ->
   nonuncompress (noncompress d) (len d) cap dnil = Ok d.
 Proof. exact stored_roundtrip. Qed.
 Print Assumptions C06_stored_roundtrip.
+
+(* --- decode (encode x) = x ---------------------------------------------------------------------------- *)
+(* the line loop of sc_io_decode applied to an armored payload returns the payload, for all 256 break bytes
+   (the break bytes are skipped by position, so alphabet characters are allowed as break bytes too) *)
+Theorem C06_dec_lines_armor : forall lb p, bytes p -> 0 < len p < M64 / 4 ->
+  let t := armor lb p in
+  let E := len t in
+  let lines := dec_base64_lines E in
+  dec_guard_short E lines = false /\
+  dec_lines (Z.to_nat lines) E t 0 (dec_irem E lines) 0 lines [] 0 (dec_compressed_size lines)
+            (repeat 0 76) d_init = Ok (p, len p).
+Proof. exact dec_lines_armor. Qed.
+Print Assumptions C06_dec_lines_armor.
+
+(* the build with zlib: compress2 / uncompress are external code; their contract (zlib's documented round
+   trip) is the Section hypothesis, so the theorem holds for every level and every conforming zlib.
+   out = the output array as passed in (owner of any size, or a view with o_cnt elements of o_esz bytes;
+   in place: the descriptor of the input array); the result is (element count, bytes). *)
+Section Zlib.
+  Variable deflate : Z -> list Z -> list Z.
+  Variable inflate : list Z -> Z -> option (list Z).
+  Hypothesis deflate_bytes : forall l d, bytes d -> bytes (deflate l d).
+  Hypothesis zlib_ok : forall l d, bytes d -> inflate (deflate l d) (len d) = Some d.
+
+  Theorem C06_roundtrip_zlib : forall lvl lb d out maxsz,
+    bytes d -> 9 + len (deflate lvl d) < M64 / 4 -> len d < M64 / 2 ->
+    0 < o_esz out -> (len d) mod (o_esz out) = 0 ->
+    (maxsz <= 0 \/ len d <= maxsz) ->
+    (o_owner out = false -> len d <= o_cnt out * o_esz out < M64) ->
+    sc_decode_with (zlib_unc inflate) (sc_encode_with (deflate lvl) lb d) out maxsz = Ok (len d / o_esz out, d).
+  Proof. exact (decode_encode_zlib deflate inflate deflate_bytes zlib_ok). Qed.
+End Zlib.
+Print Assumptions C06_roundtrip_zlib.
+
+(* the build without zlib: writer, reader, sc_puff and adler32 are libsc's own code - no hypothesis *)
+Theorem C06_roundtrip_stored : forall lb d out maxsz,
+  bytes d -> len d < M64 / 8 ->
+  0 < o_esz out -> (len d) mod (o_esz out) = 0 ->
+  (maxsz <= 0 \/ len d <= maxsz) ->
+  (o_owner out = false -> len d <= o_cnt out * o_esz out < M64) ->
+  sc_decode (sc_encode_stored lb d) out maxsz = Ok (len d / o_esz out, d).
+Proof. exact decode_encode_stored. Qed.
+Print Assumptions C06_roundtrip_stored.
+
+(* sc_io_decode_info on an encoding returns the original size and 'z', whatever the compressor *)
+Theorem C06_decode_info_of_encode : forall compress lb d,
+  bytes d -> bytes (compress d) -> len d < M64 -> 9 + len (compress d) < M64 / 4 ->
+  sc_decode_info (sc_encode_with compress lb d) = Ok (len d, 122).
+Proof. exact decode_info_encode. Qed.
+Print Assumptions C06_decode_info_of_encode.
+
+(* configuration independence inside the model: the text of the build WITHOUT zlib carries a stream that
+   conforms to RFC 1950/1951 (C06_stored_is_zlib), which every conforming inflate - zlib's in the other
+   build - accepts; the text of the build WITH zlib is read by sc_puff in the build without: that direction
+   relies on the Huffman paths of sc_puff computing inflate, which is tested (both builds decode each
+   other's texts on every run), not proved - see docs/C06.md. *)
 
 (* hypotheses are satisfiable / the statements are not vacuous *)
 Example C06_ex_b64 : b64_encode_all [77; 97; 110; 33] = [84; 87; 70; 117; 73; 81; 61; 61].   (* "Man!" -> "TWFuIQ==" *)
